@@ -61,7 +61,7 @@ PROPS = {
                ('u_fgram', [r'^Parser::', r'^lemma_join_', r'^lemma_drop_last_push$'], dict(beyond_property='the token-grammar contract also rejects a parser that starts to accept text which is not a filter, about which the property is silent'))],
         kani=[],
         witness=['enum:filter-print-parse', 'enum:random-filters'],
-        enums_thorough=['enum:filter-eval-exhaustive', 'enum:random-filters 20000'],
+        enums_thorough=['enum:filter-eval-exhaustive', 'enum:random-filters 200000'],
         design_ref='DESIGN.md section 4, C08',
         level_text=('Proof (Verus), parser side, token level (u_fgram): a specification tok_or / tok_and / tok_term of the token spelling of a filter tree is '
                     'written from the filter grammar -- an `or` is its operands separated by the token or, each operand an `and`: its terms separated by the '
@@ -123,7 +123,7 @@ PROPS = {
               dict(harness='k_kind_code_roundtrip', klass='complete', schema=['u8'], family='kind-u8', target='HaystackKind as u8'),
               dict(harness='k_kind_name_roundtrip', klass='complete', schema=['u8'], family='kind-name', target='HaystackKind <-> &str')],
         witness=['enum:kinds-grid', 'enum:random-kinds-grid'],
-        enums_thorough=['enum:random-kinds-grid 20000'],
+        enums_thorough=['enum:random-kinds-grid 200000'],
         design_ref='DESIGN.md section 4, C19',
         level_text=('Proof: Verus for all values (each of the 18 kind predicates equals kind_of(v) == K, exactly one is true, '
                     'From<&Value> for HaystackKind equals kind_of, each of the 20 TryFrom<&Value> conversions succeeds exactly for the '
@@ -146,7 +146,7 @@ PROPS = {
               dict(harness='k_coord_laws', klass='complete', schema=['f64'] * 6, family='coord-laws', target='Coord eq/cmp/partial_cmp'),
               dict(harness='k_coord_eq_hash', klass='complete', schema=['f64'] * 4, family='coord-hash', target='Coord eq/hash')],
         witness=['enum:eq-laws', 'enum:random-eq-laws'],
-        enums_thorough=['enum:random-eq-laws 600'],
+        enums_thorough=['enum:random-eq-laws 3000'],
         design_ref='DESIGN.md section 4, C12',
         level_text=('Proof (Kani/CBMC, bit-precise, complete over all non-NaN f64): for the hand-written Eq/Hash/Ord/PartialOrd of Number '
                     '(unit-less, and with units drawn from {none, m, s}) and Coord: == is an equivalence and a clone equals its original; '
@@ -170,7 +170,7 @@ PROPS = {
               dict(harness='k_json_number_exact', klass='complete', schema=['f64'], family='json-number', target='<Number as Serialize>::serialize'),
               dict(harness='k_json_number_unit_trace', klass='complete', schema=['f64'], family='json-number', target='<Number as Serialize>::serialize (with unit)', one_spelling=True)],
         witness=['enum:hayson-roundtrip', 'enum:random-values'],
-        enums_thorough=['enum:random-values 40000'],
+        enums_thorough=['enum:random-values 400000'],
         design_ref='DESIGN.md section 4, C02',
         level_text=('Proof (Kani/CBMC, complete over all f64) of the number clause: the real <Number as Serialize>::serialize, run into a '
                     'recording Serializer, emits exactly one JSON number denoting the same f64 (integer form only when exact and not -0.0), '
@@ -197,7 +197,7 @@ PROPS = {
               dict(harness='k_json_number_exact', klass='complete', schema=['f64'], family='json-number', target='<Number as Serialize>::serialize'),
               dict(harness='k_json_number_unit_trace', klass='complete', schema=['f64'], family='json-number', target='<Number as Serialize>::serialize (with unit)', one_spelling=True)],
         witness=['enum:hayson-roundtrip', 'enum:hayson-reference', 'enum:random-values', 'enum:random-hayson-spellings'],
-        enums_thorough=['enum:random-values 40000', 'enum:random-hayson-spellings 40000'],
+        enums_thorough=['enum:random-values 400000', 'enum:random-hayson-spellings 400000'],
         design_ref='DESIGN.md section 4, C05',
         level_text=('Proof (Verus, unbounded) of the writer side for every kind: jv_value is the Hayson table written from the specification as a '
                     'recursive function from values to JSON trees (null/bool/string as plain JSON; {"_kind":"marker"|"na"|"remove"}; ref with val and '
@@ -323,7 +323,7 @@ PROPS = {
               dict(harness='k_unit_char_class', klass='complete', schema=['u8'], family=None, target='zinc number::is_unit_char'),
               dict(harness='k_u8_classes', klass='complete', schema=['u8'], family=None, target='u8::is_ascii_*')],
         witness=['enum:zinc-escape', 'enum:zinc-spellings', 'enum:zinc-reference', 'enum:random-values', 'enum:random-spellings'],
-        enums_thorough=['enum:random-values 40000', 'enum:random-spellings 40000'],
+        enums_thorough=['enum:random-values 400000', 'enum:random-spellings 400000'],
         design_ref='DESIGN.md section 4, C04',
         level_text=('Proof, per token class, against the Project Haystack Zinc grammar (the oracle is the grammar, not the code): Verus '
                     'proves one clause per string escape letter of parse_str_escape (\\b U+0008, \\f U+000C, \\n, \\r, \\t, \\", \\\\, \\$) '
@@ -362,7 +362,7 @@ PROPS = {
                      'spelling is not a sentence, and into undecided when it is another legal spelling; enum:random-spellings is the converse: an independent writer '
                      'spells seeded random values in a random legal spelling -- exponent and plain number forms, \\uXXXX escapes in either case, separators with and '
                      'without spaces, trailing commas, marker tags with and without :M, LF and CRLF -- and the decoder must return the value, 1500 values per run and '
-                     '40 000 in the thorough tier); Dict is seen through its entry list in key order. The unit class tests `> 128`, i.e. excludes '
+                     '400 000 in the thorough tier); Dict is seen through its entry list in key order. The unit class tests `> 128`, i.e. excludes '
                      'byte 0x80 that the grammar admits -- harmless: no database unit contains it (C15 lemma).'),
         technique='contract-based deductive verification: Verus per-letter postconditions on the real body + Kani complete byte-class harnesses',
     ),
@@ -411,7 +411,7 @@ PROPS = {
                    target='Scanner::make / read_byte (reader contract)', timeout=1500, thorough_only=True),
               dict(harness='k_json_number_exact', klass='complete', schema=['f64'], family='json-number', target='<Number as Serialize>::serialize (re-encoding a decoded number denotes the same f64)')],
         witness='zinc', enums=['enum:stream-chunks', 'enum:reencode-stable', 'enum:lazy-rows', 'enum:random-values'],
-        enums_thorough=['enum:random-values 40000'],
+        enums_thorough=['enum:random-values 400000'],
         design_ref='DESIGN.md section 4, C11',
         level_text=('Proof (Verus) of the second sentence only, as a frame argument: in the extracted decoder the reader is an opaque token '
                     'that only Scanner::make and read_byte can touch; every other function of the scanner, lexer and parsers -- including the '
@@ -436,7 +436,7 @@ PROPS = {
                ('u_zgram', [r'^Parser::parse_value$', r'^Parser::parse_nested_value$', r'^parse_list$', r'^parse_dict$', r'^parse_dict_parts$', r'^RowParser::parse_row$', r'^parse_grid_ver$', r'^parse_grid_meta$'], dict(beyond_property='the token-grammar contract also rejects a decoder that starts to accept text which is not a Zinc sentence, about which the property is silent'))],
         kani=[dict(harness='k_zinc_keywords', klass='complete', schema=['u8'], family=None, target='to_zinc of Marker/Remove/Na/Bool')],
         witness=['enum:zinc-roundtrip-scalars', 'enum:zinc-escape', 'enum:random-values'],
-        enums_thorough=['enum:random-values 40000'],
+        enums_thorough=['enum:random-values 400000'],
         design_ref='DESIGN.md section 4, C01',
         level_text=('Proof of decode(encode(v)) == v for two families of values. (1) Strings, all of them (every Unicode string incl. controls, quotes, '
                     'backslash, $, astral planes): Verus proves on the real write_quoted_str (= Str::to_zinc) that the output is " + enc(s) + " with '
